@@ -252,6 +252,15 @@ func TestC16(t *testing.T) {
 		{Kind: "op", Op: &Op{K: "pull", Sub: "src", Max: 2, Via: "handler"}},
 		{Kind: "op", Op: &Op{K: "pull", Sub: "dlyes", Max: 5, Via: "handler"}},
 		{Kind: "op", Op: &Op{K: "pull", Sub: "dlno", Max: 5, Via: "handler"}},
+		// acknowledgements and deadline changes that mix ids of outstanding deliveries with ids that match
+		// nothing, and that name one id twice: answered OK, the outstanding ones are settled
+		{Kind: "createSub", Sub: &SubReq{Name: "projects/p/subscriptions/ackmix", Topic: T}},
+		{Kind: "op", Op: &Op{K: "publish", Topic: "t", Via: "handler", Msgs: []MsgSpec{{N: 920}, {N: 921}, {N: 922}}}},
+		{Kind: "op", Op: &Op{K: "pull", Sub: "ackmix", Max: 5, Via: "handler"}},
+		{Kind: "op", Op: &Op{K: "ack", Refs: []Ref{{N: 920, Sub: "ackmix"}}, Garbage: 1, Via: "handler"}},
+		{Kind: "op", Op: &Op{K: "ack", Refs: []Ref{{N: 921, Sub: "ackmix"}, {N: 921, Sub: "ackmix"}}, Via: "handler"}},
+		{Kind: "op", Op: &Op{K: "delay", Refs: []Ref{{N: 922, Sub: "ackmix"}, {N: 920, Sub: "ackmix"}}, Garbage: 1, D: 0, Via: "handler"}},
+		{Kind: "op", Op: &Op{K: "pull", Sub: "ackmix", Max: 5, Via: "handler"}},
 		// a dead-letter policy whose topic is deleted before the message has used up its attempts: the Pull that
 		// finds the attempts used up has nowhere to forward to
 		{Kind: "createTopic", Name: "projects/p/topics/dgone"},
@@ -1088,6 +1097,9 @@ func TestC17(t *testing.T) {
 		ok = checkApiCorrespondence(t, m, st, "C17", Seed(), reqs, lines)
 	}
 	st.Sample(reqs[7])
+	if !hasConcrete(st.Violations) {
+		filterEnforced(t, st)
+	}
 	st.Set("evaluations", len(results)+codecN)
 	tv := 0
 	if ok {
